@@ -7,6 +7,7 @@ import (
 	"sync/atomic"
 
 	yae "github.com/goghcrow/yae"
+	"github.com/goghcrow/yae/parser/oper"
 	"github.com/goghcrow/yae/types"
 	"github.com/goghcrow/yae/val"
 
@@ -114,9 +115,90 @@ func c14Run(nG int, spins []int, body func(g int)) {
 	wg.Wait()
 }
 
+// engines with two different operator tables compiling concurrently
+func c14OperatorTables(c *run.Ctx, caseNo *int, rep int) {
+	*caseNo++
+	if !c.Mine(*caseNo) {
+		return
+	}
+	c.Case(fmt.Sprintf("optables/%d", rep), func() {
+		r := c.Rng("optables", *caseNo)
+		cmp3 := val.Fun(types.Fun("<=>", []*types.Type{types.Num, types.Num}, types.Num), func(x ...*val.Val) *val.Val {
+			a, b := x[0].Num().V, x[1].Num().V
+			switch {
+			case a < b:
+				return val.Num(-1)
+			case a > b:
+				return val.Num(1)
+			}
+			return val.Num(0)
+		})
+		arrow := val.Fun(types.Fun("=>", []*types.Type{types.Bool, types.Bool}, types.Bool), func(x ...*val.Val) *val.Val {
+			return val.Bool(!x[0].Bool().V || x[1].Bool().V)
+		})
+		mkA := func() *yae.Expr {
+			return c14Engine(false).RegisterOperator(oper.Operator{Kind: "<=>", BP: oper.BP_CMP, Fixity: oper.INFIX_N}).RegisterFun(cmp3)
+		}
+		mkB := func() *yae.Expr {
+			return c14Engine(true).RegisterOperator(oper.Operator{Kind: "=>", BP: oper.BP_LOGIC_OR, Fixity: oper.INFIX_R}).RegisterFun(arrow)
+		}
+		srcA := []string{"n <=> k", "(n <=> k) + (k <=> n)", "n <= k", "xs[0] <=> xs[1] <=> 0 == true || true"}
+		srcB := []string{"b => n > k", "n >= k => b => true", "n <= k", "b => b"}
+		expect := func(mk func() *yae.Expr, srcs []string) []string {
+			out := make([]string, len(srcs))
+			for i, s := range srcs {
+				cl, err := mk().Compile(s, c14Env(1, 2))
+				if err != nil {
+					out[i] = "COMPILE-ERR"
+					continue
+				}
+				out[i] = outcomeOf(cl(c14Env(3, 4)))
+			}
+			return out
+		}
+		wantA, wantB := expect(mkA, srcA), expect(mkB, srcB)
+		nG := 16 + r.Intn(17)
+		spins := make([]int, 11)
+		for i := range spins {
+			spins[i] = r.Intn(3000)
+		}
+		bad := make([]string, nG)
+		c14Run(nG, spins, func(g int) {
+			mk, srcs, want := mkA, srcA, wantA
+			if g%2 == 1 {
+				mk, srcs, want = mkB, srcB, wantB
+			}
+			for round := 0; round < 6; round++ {
+				eng := mk()
+				for i, s := range srcs {
+					out := "COMPILE-ERR"
+					cl, err := eng.Compile(s, c14Env(1, 2))
+					if err == nil {
+						out = outcomeOf(cl(c14Env(3, 4)))
+					}
+					if out != want[i] && bad[g] == "" {
+						bad[g] = fmt.Sprintf("%q gives %s; alone it gives %s (%v)", s, out, want[i], err)
+					}
+				}
+			}
+		})
+		c.Count("concurrent_compilations", nG*6*len(srcA))
+		for g, b := range bad {
+			if b != "" {
+				c.Violation("concurrent-outcome", fmt.Sprintf("engines with different operator tables compiling concurrently (goroutine %d of %d): %s", g, nG, b), nil)
+				return
+			}
+		}
+		c.Distinct(fmt.Sprintf("optables/%d", nG))
+	})
+}
+
 func runC14(c *run.Ctx) {
 	reps := c.Pick(10, 50)
 	caseNo := 0
+	for rep := 0; rep < reps*3; rep++ {
+		c14OperatorTables(c, &caseNo, rep)
+	}
 	for rep := 0; rep < reps; rep++ {
 		for _, closureBackend := range []bool{false, true} {
 			closureBackend := closureBackend
@@ -252,7 +334,7 @@ func runC14(c *run.Ctx) {
 func init() {
 	run.Register(&run.Spec{
 		ID: "C14", Run: runC14, Level: "exploration",
-		Rule: "each of 16 programs (mono / poly calls, lazy host and built-in functions, literals incl. time literals through cgo, maps, objects, failing subscripts) compiled once and invoked from 16-64 goroutines x 20 calls with per-call host environments or per-goroutine raw environments; 16-48 goroutines compiling all programs on separate engines, and on one engine after its first compilation; vm and closure compilers; barrier release with PRNG-determined spin offsets; 10 (quick) / 50 (thorough) repetitions; all under the race detector (8 -race workers cover the whole case list, GORACE halt_on_error=0, reports de-duplicated by the set of yae frames); " +
+		Rule: "each of 16 programs (mono / poly calls, lazy host and built-in functions, literals incl. time literals through cgo, maps, objects, failing subscripts) compiled once and invoked from 16-64 goroutines x 20 calls with per-call host environments or per-goroutine raw environments; 16-48 goroutines compiling all programs on separate engines, and on one engine after its first compilation; engines with two different user operator tables compiling concurrently; vm and closure compilers; barrier release with PRNG-determined spin offsets; 10 (quick) / 50 (thorough) repetitions; all under the race detector (8 -race workers cover the whole case list, GORACE halt_on_error=0, reports de-duplicated by the set of yae frames); " +
 			"monitor: zero race reports, and every concurrent outcome equals the outcome of the same call made alone beforehand. distinct = (workload, backend, program, goroutine count)",
 		Assume: []string{"the race detector cannot see inside the prebuilt C archive: concurrent strtotime is monitored through outcome equality only", "interleavings are those the Go scheduler produces on this machine"},
 		Builds: []string{"race"}, SanFrac: 1, Workers: 4,
